@@ -53,13 +53,14 @@ class Keychain(object):
         total = 0
         for key in keys:
             fingerprint = key.fingerprint()
-            h160 = key.subkey_for_path(path).hash160()
-            self._exec_sql(
-                "insert or ignore into HASH160 values (?, ?, ?)",
-                h160,
-                path,
-                fingerprint,
-            )
+            subkey = key.subkey_for_path(path)
+            for is_compressed in (True, False):
+                self._exec_sql(
+                    "insert or ignore into HASH160 values (?, ?, ?)",
+                    subkey.hash160(is_compressed=is_compressed),
+                    path,
+                    fingerprint,
+                )
             total += 1
         return total
 
@@ -67,13 +68,14 @@ class Keychain(object):
         fingerprint = key.fingerprint()
         total = 0
         for path in path_iterator:
-            h160 = key.subkey_for_path(path).hash160()
-            self._exec_sql(
-                "insert or ignore into HASH160 values (?, ?, ?)",
-                h160,
-                path,
-                fingerprint,
-            )
+            subkey = key.subkey_for_path(path)
+            for is_compressed in (True, False):
+                self._exec_sql(
+                    "insert or ignore into HASH160 values (?, ?, ?)",
+                    subkey.hash160(is_compressed=is_compressed),
+                    path,
+                    fingerprint,
+                )
             total += 1
         return total
 
